@@ -113,6 +113,21 @@ def retrieve : Trie → Nibs → Option Bytes
       | i :: rest => retrieve (cs i) rest
       | [] => none  -- unreachable: pk is a proper prefix of key
 
+/-! ### region of the `len(key) == 0` short cuts (known finding `empty-remaining-key`) -/
+
+/-- Get/Delete: the nibble key ends exactly on arrival at a node with a non-empty partial key
+    (`len(key) == 0` short cut of `retrieveFromBranch` / `deleteLeaf` / `deleteBranch`). -/
+def emptyKeyHit : Trie → Nibs → Bool
+  | nil, _ => false
+  | leaf pk _, key => key.isEmpty && !pk.isEmpty
+  | branch pk _ cs, key =>
+    if key.isEmpty then !pk.isEmpty
+    else if pk == key then false
+    else if !(pk.isPrefixOf key) then false
+    else match key.drop pk.length with
+      | i :: rest => emptyKeyHit (cs i) rest
+      | [] => false
+
 /-! ### Delete -/
 
 /-- `handleDeletion(branch, key)` on the branch `(pk, v, cs)` -/
@@ -225,6 +240,47 @@ structure DnlState where
   deleted : Nat
   result : Option (Trie × Nat)   -- `some` once the Go loop has returned
 
+/-- one iteration of the `for i, child := range branch.Children` loop of `deleteNodesLimit` on the
+    branch `(pk, v, cs)`; `rec i limit` is the recursive call on child `i` -/
+def dnlStep (pk : Nibs) (v : Option Bytes) (cs : Nib → Trie) (rec : Nib → Nat → Trie × Nat)
+    (s : DnlState) (i : Nib) : DnlState :=
+  if s.result.isSome || (cs i).isNil then s
+  else
+    let r := rec i s.limit
+    let cs' := setChild s.cs i r.1
+    let limit' := s.limit - r.2
+    let deleted' := s.deleted + r.2
+    let newParent := handleDeletion pk v cs' pk
+    if (childIdx cs').isEmpty && v.isNone then
+      { cs := cs', limit := limit', deleted := deleted', result := some (nil, deleted') }
+    else if limit' = 0 then
+      { cs := cs', limit := limit', deleted := deleted', result := some (newParent, deleted') }
+    else { cs := cs', limit := limit', deleted := deleted', result := none }
+
+/-- what `deleteNodesLimit` returns after the loop: the value recorded when the loop returned, or,
+    if the loop ran to its end, the removal of the branch itself (`valuesDeleted++` for its value) -/
+def dnlOut (v : Option Bytes) (final : DnlState) : Trie × Nat :=
+  match final.result with
+  | some r => r
+  | none => (nil, final.deleted + (if v.isSome then 1 else 0))
+
+/-- `deleteNodesLimit` on the branch `(pk, v, cs)` with a non-zero limit: the loop over the
+    children, then the branch itself -/
+def dnlBranch (pk : Nibs) (v : Option Bytes) (cs : Nib → Trie) (rec : Nib → Nat → Trie × Nat)
+    (limit : Nat) : Trie × Nat :=
+  dnlOut v ((List.finRange 16).foldl (dnlStep pk v cs rec)
+    { cs := cs, limit := limit, deleted := 0, result := none })
+
+theorem dnlBranch_eq (pk : Nibs) (v : Option Bytes) (cs : Nib → Trie)
+    (rec : Nib → Nat → Trie × Nat) (limit : Nat) :
+    dnlBranch pk v cs rec limit =
+      dnlOut v ((List.finRange 16).foldl (dnlStep pk v cs rec)
+        { cs := cs, limit := limit, deleted := 0, result := none }) := rfl
+
+-- keeps the unfolding equations of `deleteNodesLimit` cheap (the loop is never evaluated
+-- symbolically: sixteen nested copies of the loop state are exponentially large)
+attribute [irreducible] dnlBranch
+
 /-- `deleteNodesLimit`: new node and the number of values deleted.  (Go panics on a branch
     without children; such a node is never built by the trie operations and the model returns
     `nil` for it.) -/
@@ -233,24 +289,7 @@ def deleteNodesLimit : Trie → Nat → Trie × Nat
   | leaf pk v, limit => if limit = 0 then (leaf pk v, 0) else (nil, 1)
   | branch pk v cs, limit =>
     if limit = 0 then (branch pk v cs, 0)
-    else
-      let final := (List.finRange 16).foldl (fun (s : DnlState) i =>
-        if s.result.isSome || (cs i).isNil then s
-        else
-          let r := deleteNodesLimit (cs i) s.limit
-          let cs' := setChild s.cs i r.1
-          let limit' := s.limit - r.2
-          let deleted' := s.deleted + r.2
-          let newParent := handleDeletion pk v cs' pk
-          if (childIdx cs').isEmpty && v.isNone then
-            { cs := cs', limit := limit', deleted := deleted', result := some (nil, deleted') }
-          else if limit' = 0 then
-            { cs := cs', limit := limit', deleted := deleted', result := some (newParent, deleted') }
-          else { cs := cs', limit := limit', deleted := deleted', result := none })
-        { cs := cs, limit := limit, deleted := 0, result := none }
-      match final.result with
-      | some r => r
-      | none => (nil, final.deleted + (if v.isSome then 1 else 0))
+    else dnlBranch pk v cs (fun i lim => deleteNodesLimit (cs i) lim) limit
 
 /-- `clearPrefixLimitAtNode` / `clearPrefixLimitBranch` / `clearPrefixLimitChild`:
     new node, values deleted, allDeleted -/
@@ -306,6 +345,23 @@ def nextKey (t : Trie) (k : Bytes) : Option Bytes :=
 /-- `Entries()`: every key of the trie with `Get` of that key (unordered in Go: a map) -/
 def entries (t : Trie) : List (Bytes × Option Bytes) :=
   (entriesN t).map (fun e => (nibblesToKeyLE e.1, get t (nibblesToKeyLE e.1)))
+
+/-! ### regions of the other known findings (on the byte-keyed content `es` of the trie) -/
+
+def lowNibbleZero (p : Bytes) : Bool :=
+  match p.getLast? with
+  | some b => b.toNat % 16 == 0
+  | none => false
+
+/-- some key has the nibble prefix `trimZero p` but not the byte prefix `p` -/
+def trimRegion (p : Bytes) (es : Entries) : Bool :=
+  lowNibbleZero p &&
+    es.any (fun e => (trimZero (toNibs p)).isPrefixOf (toNibs e.1) && !(p.isPrefixOf e.1))
+
+/-- among the keys with prefix `p` one is a proper prefix of another -/
+def nestedRegion (p : Bytes) (es : Entries) : Bool :=
+  let ks := OMap.keysWithPrefix p es
+  ks.any (fun a => ks.any (fun b => a.isPrefixOf b && !(a == b)))
 
 end Trie
 end Gossamer
